@@ -104,7 +104,7 @@ fn write_stream<W: Write>(w: &mut W, d: &Dir, rng: &mut Rng, maxchunk: u64, wral
     let mut h = 0xcbf29ce484222325u64;
     let mut buf = vec![0u8; maxchunk as usize];
     while off < d.total {
-        let n = rng.range(1, maxchunk).min(d.total - off) as usize;
+        let n = if envn("MAYV_CHUNKED", 0) != 0 { maxchunk } else { rng.range(1, maxchunk) }.min(d.total - off) as usize;
         for i in 0..n {
             buf[i] = gen(d.seed, off + i as u64);
         }
@@ -158,7 +158,7 @@ fn read_stream<R: Read>(r: &mut R, d: &Dir, rng: &mut Rng, maxbuf: u64, who: &st
     let mut buf = vec![0u8; maxbuf as usize];
     let mut bad = false;
     loop {
-        let n = rng.range(1, maxbuf) as usize;
+        let n = if envn("MAYV_CHUNKED", 0) != 0 { maxbuf as usize } else { rng.range(1, maxbuf) as usize };
         brk();
         if tf != NOF {
             tap::call_rd(tf, false, None, n);
@@ -343,8 +343,17 @@ fn main() {
     let duplex = envn("MAYV_DUPLEX", 0) == 1;
     let close_how = envs("MAYV_CLOSE", "mix");
     let nmsgs = envn("MAYV_MSGS", 12) as usize;
+    // MAYV_CHUNKED=s (stream sockets): every write offers exactly s bytes and every read asks for exactly s bytes, so
+    // that "the socket buffer is full" is a function of the number of unread writes (measured on a probe connection
+    // and announced to the trace acceptor): the variant in which the acceptor follows blocked WRITERS
+    let chunked = envn("MAYV_CHUNKED", 0);
+    let (maxchunk, maxbuf) = if chunked != 0 { (chunked, chunked) } else { (maxchunk, maxbuf) };
     run(cfg, move |ctx| {
         let tap_on = tap::enable();
+        if tap_on && chunked != 0 {
+            let n = tap::probe_stream_capacity(chunked as usize, &|fd| set_sockbuf(fd, sockbuf));
+            tap::cap(n * chunked);
+        }
         let mut jobs: Vec<(String, bool, Job)> = vec![];
         let pick = |sel: &str, r: u64| match sel {
             "co" => true,
@@ -359,6 +368,7 @@ fn main() {
                     1 => 1 + ctx.rand() % 16,
                     _ => ctx.rand() % (maxsize + 1),
                 };
+                let total = if chunked != 0 { total / chunked * chunked } else { total };
                 let sizes: Vec<usize> = if dgram {
                     (0..nmsgs).map(|_| if ctx.rand() % 6 == 0 { 0 } else { (ctx.rand() % (maxchunk + 1)) as usize }).collect()
                 } else {
